@@ -261,13 +261,16 @@ impl C04 {
 impl C04 {
     /// every history of length `len` over: add@{0,1} x t{0,1,2} x cpu{0,5000}, merge@{0,1} x t{0,1,2}, alloc@1 (lands in
     /// thread 0), marker@0 with another stack, ser
-    fn exhaustive_profile(&self, len: usize, out: &mut Vec<Case>) {
-        let alphabet = 21usize;
+    fn exhaustive_profile(&self, len: usize, reduced: bool, out: &mut Vec<Case>) {
+        // reduced: add@0 x t{0,1} x cpu{0,5000}, merge@0 x t{0,1}, add@1 1 cpu 0, merge@1 0, alloc@1, ser
+        const REDUCED: [usize; 10] = [0, 2, 6, 8, 12, 14, 3, 13, 18, 20];
+        let alphabet = if reduced { REDUCED.len() } else { 21usize };
         let mut idx = vec![0usize; len];
         loop {
             let mut ops = Vec::with_capacity(len);
             for (pos, &c) in idx.iter().enumerate() {
                 let w = 1i64 << pos;
+                let c = if reduced { REDUCED[c] } else { c };
                 ops.push(match c {
                     0..=11 => format!("add@{} {} {} {} {w}", c % 2, (c / 2) % 3, if pos % 2 == 0 { "0" } else { "none" }, if c / 6 == 0 { 0 } else { 5000 }),
                     12..=17 => format!("merge@{} {} {w}", c % 2, (c - 12) / 2),
@@ -276,7 +279,7 @@ impl C04 {
                     _ => "ser".to_string(),
                 });
             }
-            out.push(Case { name: format!("xp{}-{}", len, idx.iter().map(|c| format!("{c:02}")).collect::<Vec<_>>().join("")), ops });
+            out.push(Case { name: format!("xp{}{}-{}", if reduced { "r" } else { "" }, len, idx.iter().map(|c| format!("{c:02}")).collect::<Vec<_>>().join("")), ops });
             let mut k = 0;
             loop {
                 if k == len {
@@ -403,11 +406,14 @@ impl Prop for C04 {
         v.push(lit("counter-nonfinite", &["addc 5 f7ff8000000000000 1", "addc 4 f7ff0000000000000 2", "addc 4 ffff0000000000000 3", "addc 6 1 4"]));
         v.push(lit("overflow-other-thread", &["add@1 1 none 0 2147483647", "add@0 1 none 0 1", "merge@0 2 2147483646", "ser", "merge@1 2 1"]));
         let (max_full, max_red, max_c, max_p) = match tier {
-            Tier::Quick => (3, 4, 5, 3),
-            Tier::Thorough => (4, 5, 7, 4),
+            Tier::Quick => (3, 4, 5, 4),
+            Tier::Thorough => (4, 5, 7, 5),
         };
-        for len in 1..=max_p {
-            self.exhaustive_profile(len, &mut v);
+        for len in 1..=3 {
+            self.exhaustive_profile(len, false, &mut v);
+        }
+        for len in 4..=max_p {
+            self.exhaustive_profile(len, true, &mut v);
         }
         for len in 1..=max_full {
             self.exhaustive_thread(len, true, &mut v);
@@ -790,6 +796,7 @@ impl C04 {
             let t = arr(&v, "threads").iter().find(|t| t.get("tid").map(|x| x.to_string().trim_matches('"') == tid).unwrap_or(false));
             let Some(t) = t else { return Err(format!("err:no-thread-{i}")) };
             let p = format!("t{i}");
+            let start = out.len();
             let s = &t["samples"];
             let (stack, deltas, weight, cpu) = (arr(s, "stack"), arr(s, "timeDeltas"), arr(s, "weight"), arr(s, "threadCPUDelta"));
             let length = s.get("length").and_then(|x| x.as_u64()).map(|x| x.to_string()).unwrap_or("?".into());
@@ -847,12 +854,18 @@ impl C04 {
                 }
                 stats.add("allocation_rows_serialized", time.len() as u64);
             }
+            // a thread nothing has happened to: one line
+            if out.len() == start + 3 && out[start] == format!("{p} len 0 0 0 0 0") && out[start + 1] == format!("{p} deltas") && out[start + 2] == format!("{p} meta 0 0") {
+                out.truncate(start);
+                out.push(format!("{p} empty"));
+            }
         }
         for j in 0..NCOUNTERS {
             let name = format!("c04-{j}");
             let c = arr(&v, "counters").iter().find(|c| c.get("name").and_then(|x| x.as_str()) == Some(name.as_str()));
             let Some(c) = c else { return Err(format!("err:no-counter-{j}")) };
             let p = format!("c{j}");
+            let start = out.len();
             let s = &c["samples"];
             let (count, number, deltas) = (arr(s, "count"), arr(s, "number"), arr(s, "timeDeltas"));
             let length = s.get("length").and_then(|x| x.as_u64()).map(|x| x.to_string()).unwrap_or("?".into());
@@ -870,6 +883,10 @@ impl C04 {
                 emit_rows(&format!("{p} crow"), &d, payload, &mut out);
             }
             stats.add("counter_rows_serialized", d.len() as u64);
+            if out.len() == start + 2 && out[start] == format!("{p} clen 0 0 0 0") && out[start + 1] == format!("{p} cdeltas") {
+                out.truncate(start);
+                out.push(format!("{p} empty"));
+            }
         }
         Ok(out)
     }
